@@ -24,7 +24,7 @@ structure Full where
   ws : Option WState := none
   clock : Int := 0
 
-def worldOps : List String := ["world", "clock", "advance", "init", "tick", "mutate", "mode", "state", "backend_log", "daemon", "reload", "dstate"]
+def worldOps : List String := ["world", "clock", "advance", "init", "tick", "mutate", "mode", "state", "backend_log", "daemon", "reload", "dstate", "sleep"]
 
 /-- a client query touches the selected peers (`lastQuery`, spin-up from idle) before it is answered -/
 def touchPeers (f : Full) (j : Json) : Full :=
@@ -104,7 +104,8 @@ def runEvents (j : Json) (chunks : List (List String)) : List Event → Full →
         | none => (ws, results)
         | some e =>
           let (p, b, cb, o) := peerSend ws.w ws.now (parseEnv j peer) e.p e.b e.cb cmds
-          (mapPeer ws peer (fun e => { e with p := p, b := b, cb := cb }), results ++ [outcomeJson peer o])) (ws, [])
+          let pending := if o == .stillWaiting then e.pending ++ [cmds] else e.pending
+          (mapPeer ws peer (fun e => { e with p := p, b := b, cb := cb, pending := pending }), results ++ [outcomeJson peer o])) (ws, [])
       let f := { f with ws := some ws, st := { f.st with ds := ws.dataset f.st.ds } }
       runEvents j chunks rest f (out ++ [Json.mkObj [("ev", .str "flush"), ("results", .arr results.toArray)]])
     | .flush _, none => runEvents j chunks rest f out
